@@ -89,6 +89,32 @@ def _matches(rows, ref, tol=R.EXACT_TOL):
     return all(r[0] in e[0] and r[1] in e[1] and abs(r[2] - e[2]) <= tol for r, e in zip(rows, ref))
 
 
+# Legs shorter than about 5 cm: lengths (hence shares) are only known to ratio_tol(L) > PRECISE, a
+# zero-length touch piece is no longer distinguishable from a real one, so pieces are not matched
+# one by one; instead every reported cell's share must lie between the oracle share that can only
+# belong to it and the oracle share that may belong to it, and the total share must be 1.
+PRECISE = 1e-6
+
+
+def _interval_match(cells, shares, ref, tol):
+    slack = (len(ref) + len(shares)) * tol
+    tot = sum(shares)
+    if any(sh < -tol for sh in shares) or not abs(tot - 1.0) <= R.DENSE_TOL + slack or tot <= 0:
+        return False
+    d = {}
+    for c, sh in zip(cells, shares):
+        d[c] = d.get(c, 0.0) + sh / tot
+    for c, got in d.items():
+        may = sum(e[2] for e in ref if c[0] in e[0] and c[1] in e[1])
+        must = sum(e[2] for e in ref if e[0] == (c[0],) and e[1] == (c[1],))
+        if not (must - slack <= got <= may + slack):
+            return False
+    for e in ref:  # a cell the path really enters must receive its share
+        if len(e[0]) == 1 and len(e[1]) == 1 and e[2] > slack and (e[0][0], e[1][0]) not in d:
+            return False
+    return True
+
+
 def _only_wrap_mismatches(rows, ref, nlat, nlon, tol=R.EXACT_TOL):
     """Signature of WRAP: shares right, and every wrong label is the last grid value reported
     for a piece that lies on the first grid line of that axis.
@@ -131,7 +157,7 @@ def attribution(ev):
     for k, s in enumerate(segs):
         ex = s['exact']
         idx = np.nonzero(tags == k)[0]
-        where = f'segment {k} {list(s["a"])}->{list(p["pts"][k + 1])} (1/{p["unit"]} deg)'
+        where = R.where_segment(p, k)
         if len(idx) == 0:
             vio.append(V('segment-missing', f'{where}: no piece reported'))
             continue
@@ -183,7 +209,9 @@ def attribution(ev):
         rtot = sum(x['raw'] for x in ex['pieces'])
         ref = [(x['lat'], x['lon'], x['raw'] / rtot, x['first']) for x in ex['pieces']]
         neg = [sh for sh in shares if sh < -tol]
-        if _matches(rows, ref, tol) and not neg and abs(tot - 1.0) <= R.DENSE_TOL:
+        if tol <= PRECISE and _matches(rows, ref, tol) and not neg and abs(tot - 1.0) <= R.DENSE_TOL:
+            continue
+        if tol > PRECISE and _interval_match(cells, shares, ref, tol):
             continue
         f = None
         if _only_wrap_mismatches(rows, ref, nlat, nlon, tol):
